@@ -3,13 +3,20 @@ from __future__ import annotations
 
 import copy
 import itertools
+import json
+import math
+import random
 import sys
+import zlib
 from collections import Counter
 
 import numpy as np
 
 import core
 import circgen as cg
+
+import lightworks as lw
+from lightworks import emulator
 
 
 def _u(snap):
@@ -101,12 +108,312 @@ def wiring_reference(P, S, R, u):
                 return None
     return why
 
+def plus_reference(A, B, Z):
+    """z = a + b on herald-free circuits of equal size: the components of a, then those of b; loss modes of a, then of b."""
+    n = A[0]
+    if Z[0] != n or Z[1] != n or Z[2] or Z[3] or Z[4]:
+        return f"the sum has n_modes {Z[0]}, input size {Z[1]}, heralds {Z[2]}/{Z[3]}, ancillas {Z[4]}; expected {n} plain modes"
+    if "ok" not in A[5] or "ok" not in B[5] or "ok" not in Z[5]:
+        if "ok" in A[5] and "ok" in B[5]:
+            return f"the sum of two circuits that compile does not compile: {Z[5]}"
+        return None
+    dA, UA = _u(A)
+    dB, UB = _u(B)
+    dZ, UZ = _u(Z)
+    lA, lB = dA - n, dB - n
+    if dZ != n + lA + lB:
+        return f"U_full of the sum has dimension {dZ}, expected {n}+{lA}+{lB}"
+    iota = np.eye(dZ, dtype=complex)
+    iota[:dA, :dA] = UA
+    E = np.eye(dZ, dtype=complex)
+    idx = list(range(n)) + [n + lA + j for j in range(lB)]
+    E[np.ix_(idx, idx)] = UB
+    M = E @ iota
+    if np.abs(M - UZ).max() > 1e-9:
+        return f"U_full of a + b is not (b on the modes and its own loss modes) x (a) (max dev {np.abs(M - UZ).max():.3g})"
+    return None
+
+
+def permanent(M):
+    k = M.shape[0]
+    if k == 0:
+        return 1.0 + 0j
+    tot = 0j
+    for p in itertools.permutations(range(k)):
+        t = 1.0 + 0j
+        for i, j in enumerate(p):
+            t *= M[i, j]
+            if t == 0:
+                break
+        tot += t
+    return tot
+
+
+def fock_amplitude(U, full_in, full_out):
+    """<out| U |in> for occupation lists over the modes of U (bosonic: permanent of the repeated-rows/columns
+    submatrix over the square roots of the factorials)."""
+    if sum(full_in) != sum(full_out):
+        return 0j
+    cols = [m for m, k in enumerate(full_in) for _ in range(k)]
+    rows = [m for m, k in enumerate(full_out) for _ in range(k)]
+    norm = math.sqrt(math.prod(math.factorial(k) for k in full_in) * math.prod(math.factorial(k) for k in full_out))
+    return permanent(U[np.ix_(rows, cols)]) / norm
+
+
+def _with_heralds(state, heralds, n):
+    out, it = [], iter(state)
+    for m in range(n):
+        out.append(heralds[m] if m in heralds else next(it))
+    return out
+
+
+def amplitude_check(c, rng, max_photons=5, max_outputs=400):
+    """Simulator amplitudes of a finished circuit against the permanent formula on its U_full with the herald photons
+    placed on the heralded modes (input and output dictionaries taken from the circuit, which the wiring oracle has
+    tied to the parts).  None | text | "skipped"."""
+    her = c.heralds
+    hin, hout = her["input"], her["output"]
+    n = c.n_modes
+    k = c.input_modes
+    if k != n - len(hin) or len(hin) != len(hout):
+        return f"input_modes = {k} with {n} modes and {len(hin)} input / {len(hout)} output heralds"
+    try:
+        U = np.array(c.U_full)
+    except Exception:  # noqa: BLE001
+        return "skipped"
+    nh = sum(hin.values())
+    room = max_photons - nh
+    if k == 0 or room < 0 or sum(hin.values()) != sum(hout.values()):
+        return "skipped"
+    nph = rng.choice([p for p in (0, 1, 1, 2, 2, 3) if p <= room])
+    occ = [0] * k
+    for _ in range(nph):
+        occ[rng.randrange(k)] += 1
+    if math.comb(k + nph - 1, nph) > max_outputs:
+        return "skipped"
+    res = emulator.Simulator(c).simulate(lw.State(occ))
+    amps = np.array(res.array)
+    outs = [list(o.s) for o in res.outputs]
+    if amps.shape != (1, len(outs)) or len(outs) != math.comb(k + nph - 1, nph) or len({tuple(o) for o in outs}) != len(outs):
+        return f"Simulator returned {amps.shape} amplitudes for {len(outs)} outputs; {math.comb(k + nph - 1, nph)} distinct outputs expected"
+    full_in = _with_heralds(occ, hin, n) + [0] * (U.shape[0] - n)
+    for j, o in enumerate(outs):
+        if len(o) != k or sum(o) != nph:
+            return f"Simulator output {o} for input {occ}"
+        full_out = _with_heralds(o, hout, n) + [0] * (U.shape[0] - n)
+        ref = fock_amplitude(U, full_in, full_out)
+        if not abs(ref - complex(amps[0, j])) <= 1e-9:
+            return (f"heralded amplitude {occ} -> {o} (heralds in {hin}, out {hout}): Simulator {complex(amps[0, j]):.6g}, "
+                    f"permanent of U_full with the herald photons on the ancillas {ref:.6g}")
+    return None
+
+
+# ---------------------------------------------------------------- program post-processing (sums, larger herald numbers)
+def scan(prog):
+    """Per circuit id: visible modes, declared + inherited herald count, loss elements (estimates ignoring rejections)."""
+    info = {}
+    for o in prog:
+        k = o[0]
+        if k == "new":
+            info[o[1]] = dict(vis=o[2], her=0, anc=0, nls=0)
+        elif k == "unitary":
+            info[o[1]] = dict(vis=o[2], her=0, anc=0, nls=0)
+        elif k in ("copy", "copyf") and o[2] in info:
+            info[o[1]] = dict(info[o[2]])
+        elif k == "plus" and o[2] in info and o[3] in info:
+            info[o[1]] = dict(vis=info[o[2]]["vis"], her=0, anc=0, nls=info[o[2]]["nls"] + info[o[3]]["nls"])
+        elif o[1] not in info:
+            continue
+        elif k == "herald":
+            info[o[1]]["her"] += 1
+        elif k == "add" and o[2] in info:
+            info[o[1]]["anc"] += info[o[2]]["her"] + info[o[2]]["anc"]
+            info[o[1]]["nls"] += info[o[2]]["nls"]
+        elif k == "loss":
+            info[o[1]]["nls"] += 1
+        elif k == "bs" and o[5] is not None:
+            info[o[1]]["nls"] += 2
+        elif k == "ps" and o[4] is not None:
+            info[o[1]]["nls"] += 1
+    return info
+
+
+def extend_program(prog, tier):
+    """Deterministic in the program (own PRNG seeded by its text, so the shared generator stream is untouched):
+    some herald photon numbers raised to 3; sums a + b / a + a of herald-free circuits (and a rejected sum), edited
+    afterwards, heralded, and added into a parent that already has ancillas."""
+    rng = random.Random(zlib.crc32(json.dumps(prog).encode()))
+    for o in prog:
+        if o[0] == "herald" and o[2] == 2 and rng.random() < 0.3:
+            o[2] = 3
+    if rng.random() < 0.45:
+        return prog
+    info = scan(prog)
+    nid = max(info) + 1
+    cap_full, cap_dim = (12, 18) if tier == "quick" else (16, 24)
+    plain = [i for i, x in info.items() if x["her"] == 0 and x["anc"] == 0]
+    parents = [i for i, x in info.items() if x["anc"] >= 1]
+    for _ in range(rng.randint(1, 2)):
+        if not plain:
+            break
+        a = rng.choice(plain)
+        same = [i for i in plain if info[i]["vis"] == info[a]["vis"]]
+        r = rng.random()
+        if r < 0.12 and len(info) >= 2:
+            her = [i for i in info if i != a and info[i]["vis"] == info[a]["vis"] and info[i]["her"] + info[i]["anc"] > 0]
+            b = rng.choice(her or [i for i in info if i != a])     # rejected: a herald is present, or another size
+        elif r < 0.3:
+            b = a
+        else:
+            b = rng.choice(same)
+        if info[a]["nls"] + info[b]["nls"] + info[a]["vis"] > cap_dim:
+            continue
+        z = nid
+        nid += 1
+        prog.append(["plus", z, a, b])
+        ok = info[b]["her"] == 0 and info[b]["anc"] == 0 and info[b]["vis"] == info[a]["vis"]
+        if not ok:
+            continue
+        info[z] = dict(vis=info[a]["vis"], her=0, anc=0, nls=info[a]["nls"] + info[b]["nls"])
+        nv = info[z]["vis"]
+        if rng.random() < 0.5:
+            prog.append(cg.gen_primitive(rng, rng.choice([z, a]), nv, loss_p=0.0))
+        if nv >= 2 and rng.random() < 0.5:
+            i = rng.randrange(nv)
+            o_ = i if rng.random() < 0.5 else rng.randrange(nv)
+            prog.append(["herald", z, rng.choice([0, 1, 1, 2]), i, None if (i == o_ and rng.random() < 0.5) else o_])
+            info[z]["her"] += 1
+        k = nv - info[z]["her"]
+        fits = [p for p in parents if info[p]["vis"] >= k and info[p]["vis"] + info[p]["anc"] + info[z]["her"] <= cap_full
+                and info[p]["vis"] + info[p]["anc"] + info[z]["her"] + info[p]["nls"] + info[z]["nls"] <= cap_dim]
+        if fits and rng.random() < 0.8:
+            p_ = rng.choice(fits)
+            prog.append(["add", p_, z, rng.randint(0, info[p_]["vis"] - k), rng.random() < 0.4])
+            info[p_]["anc"] += info[z]["her"]
+            info[p_]["nls"] += info[z]["nls"]
+            if rng.random() < 0.5:
+                prog.append(cg.gen_primitive(rng, p_, info[p_]["vis"], loss_p=0.0))
+        plain.append(z) if info[z]["her"] == 0 else None
+    return prog
+
+
+def gen_dense(rng):
+    """Small scope, densely: a parent of 1-3 visible modes with 0-3 ancillas already in place (created by fully heralded
+    one-mode circuits and half heralded two-mode circuits at random positions, so ancillas sit before, between and after
+    the visible modes, also next to each other), one test circuit of 1-4 modes carrying a generic unitary and 0-2 heralds
+    (input != output modes, any declaration order), added to a fresh copy of the parent at EVERY position where it fits."""
+    prog = []
+    nv = rng.randint(1, 3)
+    P = 0
+    nid = 1
+    prog.append(["new", P, nv])
+    for _ in range(rng.randint(0, 2)):
+        prog.append(cg.gen_primitive(rng, P, nv, loss_p=0.1))
+    for _ in range(rng.randint(0, 3)):
+        a = nid
+        nid += 1
+        if rng.random() < 0.5:
+            prog += [["new", a, 1], ["ps", a, 0, rng.randrange(len(cg.PHV)), None], ["herald", a, rng.choice([0, 1]), 0, None]]
+        else:
+            i, o = rng.randrange(2), rng.randrange(2)
+            prog += [["new", a, 2], ["bs", a, 0, 1, rng.randrange(len(cg.BSV)), None, rng.choice(["Rx", "H"])],
+                     ["herald", a, rng.choice([0, 1]), i, None if (i == o and rng.random() < 0.5) else o]]
+        prog.append(["add", P, a, rng.randrange(nv), rng.random() < 0.5])
+        if rng.random() < 0.4:
+            prog.append(cg.gen_primitive(rng, P, nv, loss_p=0.0))
+    nS = rng.randint(1, min(4, nv + 2))
+    h = rng.randint(max(0, nS - nv), min(2, nS))
+    S = nid
+    nid += 1
+    if rng.random() < 0.7:
+        prog.append(["unitary", S, nS, cg.rational_unitary(rng, nS)])
+    else:
+        prog.append(["new", S, nS])
+        for _ in range(rng.randint(1, 3)):
+            prog.append(cg.gen_primitive(rng, S, nS, loss_p=0.2))
+    ins = rng.sample(range(nS), h)
+    outs = list(ins) if rng.random() < 0.4 else rng.sample(range(nS), h)
+    for i, o in zip(ins, outs):
+        prog.append(["herald", S, rng.choice([0, 1, 1, 2]), i, None if (i == o and rng.random() < 0.5) else o])
+    k = nS - h
+    for u in (range(nv - k + 1) if k >= 1 else range(nv)):
+        C = nid
+        nid += 1
+        prog += [["copy", C, P], ["add", C, S, u, rng.random() < 0.4]]
+        if rng.random() < 0.5:
+            prog.append(["ps", C, rng.randrange(nv), rng.randrange(len(cg.PHV)), None])
+    return prog
+
+
+# ---------------------------------------------------------------- execution with varied call forms
+def apply2(pool, op, frng):
+    """circgen.apply_op, except that add / herald / barrier are called through one of their equivalent forms
+    (defaults omitted, keywords, a name for the group)."""
+    k = op[0]
+    if k == "add":
+        _, cid, sub, mode, group = op
+        par, s = pool[cid], pool[sub]
+        forms = ["full", "kw"]
+        if not group:
+            forms.append("nogroup")
+            if mode == 0:
+                forms += ["bare", "bare"]
+        else:
+            forms.append("named")
+        f = frng.choice(forms)
+        if f == "bare":
+            par.add(s)
+        elif f == "nogroup":
+            par.add(s, mode)
+        elif f == "kw":
+            par.add(circuit=s, group=group, mode=mode)
+        elif f == "named":
+            par.add(s, mode, True, frng.choice(["", "sub", "a long name"]))
+        else:
+            par.add(s, mode, group=group)
+    elif k == "herald":
+        _, cid, n, im, om = op
+        f = frng.randrange(3)
+        if f == 0:
+            pool[cid].herald(n_photons=n, input_mode=im, output_mode=om)
+        elif f == 1 and om is None:
+            pool[cid].herald(n, im)
+        else:
+            pool[cid].herald(n, im, om)
+    else:
+        cg.apply_op(pool, op)
+
+
+def run_impl2(prog, fseed, on_step, want):
+    frng = random.Random(fseed)
+    pool = {}
+    outcomes = []
+    for op in prog:
+        ids = [i for i in want(op) if i in pool]
+        before = {cid: cg.snapshot(pool[cid]) for cid in ids}
+        try:
+            apply2(pool, op, frng)
+            out = {"ok": []}
+        except NotImplementedError:
+            out = {"err": "OtherError"}
+        except Exception as e:  # noqa: BLE001
+            out = {"err": cg.err_name_for(op, e)}
+        outcomes.append(out)
+        on_step(pool, op, out, before)
+    world = [[cid, cg.snapshot(pool[cid])] for cid in pool]
+    return [outcomes, world], pool
+
 
 class C02:
     ID = "C02"
     RULE = ("random trees of circuits: leaves (primitives, Unitary blocks, 0-3 heralds in any declaration order, input != output herald modes, "
             "0-2 photons), parents with primitives before/between/after additions, grouped and ungrouped additions in any order, nesting "
-            "depth <= 3, copy/unpack, oversize and out-of-range additions; every accepted add is checked against the wiring reference. "
+            "depth <= 3, copy/unpack, oversize and out-of-range additions; dense small scope (parent of 1-3 visible modes with 0-3 ancillas "
+            "anywhere, one test circuit of 1-4 modes with 0-2 heralds added at every position that fits); sums a + b / a + a of herald-free circuits (also rejected ones) that are "
+            "edited, heralded and added into parents with ancillas, herald photon numbers 0-3, add/herald called through their equivalent "
+            "forms (defaults omitted, keywords, group names); every accepted add is checked against the wiring reference, every accepted sum "
+            "against the product of its operands, and the Simulator amplitudes (0-3 input photons) of the last heralded circuits against the "
+            "permanent formula on U_full with the herald photons on the ancillas. "
             "Non-trivial = an accepted add of a sub-circuit with >= 1 herald into a parent that already has >= 1 ancilla, or depth >= 2; "
             "distinct = distinct program JSON")
     COQ_TARGETS = ["theories/Exec/RunCircuit.vo"]
@@ -119,17 +426,47 @@ class C02:
         cases = []
         for i in range(n):
             bad = 0.2 if i % 5 == 4 else 0.0
-            cases.append(dict(kind="tree", prog=cg.gen_tree_program(rng, tier, bad=bad)))
+            prog = cg.gen_tree_program(rng, tier, bad=bad)
+            # sums, herald numbers up to 3 (drawn from a PRNG seeded by the program text: the stream above is unchanged);
+            # fseed selects the call forms (defaults omitted / keywords / group names) and the inputs of the amplitude check
+            cases.append(dict(kind="tree", prog=extend_program(prog, tier), fseed=zlib.crc32(json.dumps(prog).encode()) % 10**6))
+        for i in range(n // 6):
+            prog = gen_dense(rng)
+            cases.append(dict(kind="tree", prog=prog, fseed=zlib.crc32(json.dumps(prog).encode()) % 10**6))
         return cases
 
     def impl(self, c):
         self._fail = None
         self._nontrivial = False
 
+        sums = [0]
+
         def on_step(pool, op, out, before):
-            if op[0] != "add" or self._fail:
+            if self._fail:
+                return
+            if op[0] == "plus":
+                _, z, a, b = op
+                if a not in before or b not in before:
+                    return
+                A, B = before[a], before[b]
+                legal = A[0] == B[0] and not A[2] and not B[2]
+                if "err" in out:
+                    if legal:
+                        self._fail = f"op {op}: a + b rejected ({out['err']}) although both have {A[0]} modes and no heralds"
+                    return
+                if not legal:
+                    self._fail = f"op {op}: a + b accepted although the sizes differ or a herald is present ({A[0]} modes, heralds {A[2]}; {B[0]} modes, heralds {B[2]})"
+                    return
+                sums[0] += 1
+                msg = plus_reference(A, B, cg.snapshot(pool[z]))
+                if msg:
+                    self._fail = f"op {op}: {msg}"
+                return
+            if op[0] != "add":
                 return
             _, cid, sub, u, group = op
+            if cid not in before or sub not in before:
+                return
             P, S = before[cid], before[sub]
             nP_vis = P[0] - len(P[4])
             k = S[0] - len(S[2])
@@ -148,8 +485,26 @@ class C02:
             if msg:
                 self._fail = f"op {op}: {msg}"
 
-        obs, _ = cg.run_impl(c["prog"], on_step=on_step, want=lambda op: (op[1], op[2]) if op[0] == "add" else ())
-        obs.append({"wiring": self._fail, "nontrivial": self._nontrivial})
+        want = lambda op: (op[1], op[2]) if op[0] == "add" else ((op[2], op[3]) if op[0] == "plus" else ())  # noqa: E731
+        obs, pool = run_impl2(c["prog"], c.get("fseed", 0), on_step, want)
+        # the heralded transition amplitudes of what was built: Simulator against the permanent formula on U_full
+        checked = skipped = 0
+        if self._fail is None:
+            arng = random.Random(c.get("fseed", 0) + 1)
+            ids = [cid for cid in pool if pool[cid].heralds["input"]]
+            for cid in ids[-3:]:
+                try:
+                    msg = amplitude_check(pool[cid], arng)
+                except Exception as e:  # noqa: BLE001
+                    msg = f"Simulator raised {type(e).__name__}: {e}"
+                if msg == "skipped":
+                    skipped += 1
+                elif msg:
+                    self._fail = f"circuit {cid} (n_modes {pool[cid].n_modes}, ancillas {sorted(pool[cid]._internal_modes)}): {msg}"
+                    break
+                else:
+                    checked += 1
+        obs.append({"wiring": self._fail, "nontrivial": self._nontrivial, "sums": sums[0], "amp_checked": checked, "amp_skipped": skipped})
         return obs
 
     def coq_header(self):
@@ -183,7 +538,13 @@ class C02:
                     errs[op[0] + ":" + out["err"]] += 1
                 elif op[0] == "add":
                     adds["grouped" if op[4] else "ungrouped"] += 1
-        return {"ops": dict(ops), "rejected": dict(errs), "accepted_adds": dict(adds)}
+        extra = Counter()
+        for r in recs:
+            if isinstance(r["impl"], list) and len(r["impl"]) == 3:
+                for k in ("sums", "amp_checked", "amp_skipped"):
+                    extra[k] += r["impl"][2].get(k, 0)
+        return {"ops": dict(ops), "rejected": dict(errs), "accepted_adds": dict(adds), "accepted_sums_checked": extra["sums"],
+                "circuits_with_simulator_amplitudes_checked": extra["amp_checked"], "amplitude_checks_skipped(size)": extra["amp_skipped"]}
 
     def shrink(self, c):
         prog = c["prog"]
